@@ -6,3 +6,10 @@ check(
     "Hypothesis property-based testing vs. reference model (direct API + CLI end-to-end)",
     "DESIGN.md §3 C17",
 )
+check(
+    "C12", "exploration",
+    "Model-based generated search: a Hypothesis RuleBasedStateMachine drives histories of ResultSet operations (add_result, a|b, a|=b) against one Counter per set, invariant after every step; generated Sonar/SARIF/DefectDojo document families go through the loader functions the detectors use and are compared as multisets with an independent reference extractor; the same families go through the CLI, where the ResultSet handed to each SAST codemod is captured in the forked child. Exploration fits: histories and documents are unbounded, the oracle (multiset union / 40-line extractor) is simple and independent.",
+    "Trusted: my reference extractors (what counts as open, which run belongs to which tool, component->path); statuses restricted to unambiguous ones; every Sonar entry has a status; identity only where the format has one (Sonar key, DefectDojo id); CodeQL has no registered codemod so it is checked at loader level only.",
+    "Hypothesis stateful model-based testing + generated documents vs. reference extraction (loader level and CLI)",
+    "DESIGN.md §3 C12",
+)
